@@ -287,9 +287,67 @@ def build_base(base):
         c.tc = c.ts.dump_tables()
     elif kind == "raw":
         c.tc = build_raw(base)
+    elif kind == "shape":
+        c.tc = build_shape(base)
+        c.ts = c.tc.tree_sequence()
+        c.tree = tskit.Tree(c.ts)
+        c.tree.first()
     else:
         raise ValueError(kind)
     return c
+
+
+def build_shape(base):
+    """Valid tree sequences whose per-parent child counts / segment counts / table sizes sit
+    at chosen sizes (powers of two and +-1): the grow-by-doubling buffers of the C library.
+      star        n samples under one root
+      caterpillar n samples, n-1 internal nodes (comb)
+      intervals   k samples under one root, every edge cut into m abutting pieces
+                  (k*m child segments for the root)
+      two_level   a root over g internal nodes, each over n//g samples"""
+    import tskit
+    shape, n = base["shape"], base["n"]
+    m = base.get("m", 1)
+    L = float(base.get("L", max(m, 1)))
+    tc = tskit.TableCollection(L)
+    tc.populations.add_row()
+    for _ in range(n):
+        tc.nodes.add_row(flags=1, time=0, population=0)
+    if shape == "star":
+        root = tc.nodes.add_row(time=1)
+        for u in range(n):
+            tc.edges.add_row(0, L, root, u)
+    elif shape == "caterpillar":
+        prev = 0
+        for u in range(1, n):
+            p = tc.nodes.add_row(time=u)
+            tc.edges.add_row(0, L, p, prev)
+            tc.edges.add_row(0, L, p, u)
+            prev = p
+    elif shape == "intervals":
+        root = tc.nodes.add_row(time=1)
+        for u in range(n):
+            for j in range(m):
+                tc.edges.add_row(j * L / m, (j + 1) * L / m, root, u)
+    elif shape == "two_level":
+        g = base.get("g", 2)
+        root = tc.nodes.add_row(time=2)
+        mids = [tc.nodes.add_row(time=1) for _ in range(g)]
+        for u in range(n):
+            tc.edges.add_row(0, L, mids[u % g], u)
+        for v in mids:
+            tc.edges.add_row(0, L, root, v)
+    else:
+        raise ValueError(shape)
+    ns = base.get("sites", 2)
+    for j in range(ns):
+        sid = tc.sites.add_row((j + 0.5) * L / (ns + 1), "A")
+        for u in range(0, n, 2 if j % 2 else 1):
+            tc.mutations.add_row(sid, u, "T" if u % 3 else "G")
+    tc.sort()
+    tc.build_index()
+    tc.compute_mutation_parents()
+    return tc
 
 
 def build_raw(base):
@@ -348,6 +406,10 @@ def snapshot(c, o=None, st=None):
         env["tc"] = {t: len(getattr(c.tc, t)) for t in TABLES}
         env["L"] = repr(float(c.tc.sequence_length))
         env["tc_edge_md"] = bool(len(c.tc.edges.metadata))
+        if c.tc.has_index() and len(c.tc.edges) <= 64:
+            ix = c.tc.indexes
+            env["index"] = {"ins": [int(x) for x in ix.edge_insertion_order],
+                            "rem": [int(x) for x in ix.edge_removal_order]}
     if c.ts is not None:
         ts = c.ts
         env["ts"] = {"nodes": ts.num_nodes, "samples": ts.num_samples, "trees": ts.num_trees,
@@ -2002,6 +2064,147 @@ def _(c, positions, stat="r2"):
     return c.ts.ld_matrix(mode="branch", stat=stat, positions=[[res_pos(x, c.L) for x in row] for row in positions])
 
 
+def _pick(samples, which):
+    import numpy as np
+    s = np.asarray(samples)
+    return {"all": s, "even": s[::2], "odd": s[1::2], "rev": s[::-1], "first_half": s[:len(s) // 2],
+            "all_but_one": s[:-1], "one": s[:1], "two": s[:2]}[which]
+
+
+@op("big.simplify", [("which", "raw"), ("opts", "raw"), ("on", "raw")])
+def _(c, which, opts=None, on="ts"):
+    smp = _pick(c.ts.samples(), which)
+    if on == "ts":
+        out = c.ts.simplify(smp, **(opts or {}))
+        return [out.num_nodes, out.num_edges, out.num_mutations]
+    t = c.ts.dump_tables()
+    t.simplify(smp, **(opts or {}))
+    return [len(t.nodes), len(t.edges), len(t.mutations)]
+
+
+@op("big.ibd", [("which", "raw"), ("opts", "raw")])
+def _(c, which, opts=None):
+    smp = _pick(c.ts.samples(), which)
+    if which == "between":
+        r = c.ts.ibd_segments(between=[smp[::2], smp[1::2]], **(opts or {}))
+    else:
+        r = c.ts.ibd_segments(within=smp, **(opts or {}))
+    return [r.num_segments, repr(r.total_span)]
+
+
+@op("big.link_ancestors", [("which", "raw"), ("anc", "raw")])
+def _(c, which, anc="internal"):
+    import numpy as np
+    t = c.ts.dump_tables()
+    smp = _pick(c.ts.samples(), which)
+    internal = np.array([u for u in range(c.ts.num_nodes) if not c.ts.node(u).is_sample()], dtype=np.int32)
+    ancs = internal if anc == "internal" else internal[-1:]
+    return len(t.link_ancestors(smp, ancs))
+
+
+@op("big.subset", [("which", "raw"), ("opts", "raw")])
+def _(c, which, opts=None):
+    import numpy as np
+    nodes = np.arange(c.ts.num_nodes, dtype=np.int32)
+    nodes = {"all": nodes, "rev": nodes[::-1], "even": nodes[::2], "samples": c.ts.samples(),
+             "dup": np.concatenate([nodes, nodes])}[which]
+    out = c.ts.subset(nodes, **(opts or {}))
+    return [out.num_nodes, out.num_edges]
+
+
+@op("big.misc", [("what", "raw")])
+def _(c, what):
+    import numpy as np
+    ts = c.ts
+    if what == "sort_shuffled":
+        t = ts.dump_tables()
+        e = t.edges.copy()
+        t.edges.clear()
+        for i in reversed(range(len(e))):
+            t.edges.append(e[i])
+        t.sort()
+        return t.tree_sequence().num_edges
+    if what == "keep_intervals":
+        return ts.keep_intervals([[0, ts.sequence_length / 2]]).num_edges
+    if what == "delete_intervals":
+        return ts.delete_intervals([[0, ts.sequence_length / 3]]).num_edges
+    if what == "variants":
+        return sum(int(v.genotypes.sum()) for v in ts.variants())
+    if what == "genotype_matrix":
+        return ts.genotype_matrix()
+    if what == "map_mutations":
+        g = np.arange(ts.num_samples, dtype=np.int8) % 4
+        a, m = ts.first().map_mutations(g, ["A", "C", "G", "T"])
+        return [a, len(m)]
+    if what == "map_mutations_64":
+        g = (np.arange(ts.num_samples) % 64).astype(np.int8)
+        a, m = ts.first().map_mutations(g, [str(i) for i in range(64)])
+        return [a, len(m)]
+    if what == "stats":
+        return [repr(ts.diversity(mode="branch")), repr(ts.segregating_sites(mode="site")),
+                summarise(ts.allele_frequency_spectrum(mode="branch", polarised=True))]
+    if what == "divmat":
+        return ts.divergence_matrix(mode="branch") if ts.num_samples <= 260 else None
+    if what == "newick":
+        return sum(len(t.as_newick()) for t in ts.trees() if t.num_roots == 1)
+    if what == "trees":
+        return sum(t.num_edges + len(list(t.nodes())) for t in ts.trees(sample_lists=True))
+    if what == "dump_load":
+        c.tc = ts.dump_tables()
+        return OPS["tc.call"].fn(c, "dump_load")
+    if what == "union":
+        t = ts.dump_tables()
+        other = ts.dump_tables()
+        t.union(other, np.arange(ts.num_nodes, dtype=np.int32), check_shared_equality=True)
+        return len(t.nodes)
+    if what == "extend":
+        t = ts.dump_tables()
+        return [len(t.nodes[np.arange(len(t.nodes))[::-1]]), len(t.edges[:]), len(t.mutations[::2])]
+    if what == "decapitate":
+        return ts.decapitate(0.5).num_nodes
+    if what == "split_edges":
+        return ts.split_edges(0.5).num_nodes
+    if what == "extend_haplotypes":
+        return ts.extend_haplotypes().num_edges
+    if what == "count_topologies":
+        smp = ts.samples()
+        return sum(1 for _ in ts.count_topologies([smp[:2], smp[2:4]])) if ts.num_samples >= 4 else 0
+    if what == "gnn":
+        smp = ts.samples()
+        return ts.genealogical_nearest_neighbours(smp[:3], [smp[::2], smp[1::2]])
+    if what == "trim_rows":
+        t = ts.dump_tables()
+        for tab in (t.mutations, t.sites, t.edges):
+            tab.truncate(len(tab) // 2)
+            tab.keep_rows(np.arange(len(tab)) % 2 == 0)
+        return [len(t.edges), len(t.mutations)]
+    raise ValueError(what)
+
+
+BIG_MISC = ["sort_shuffled", "keep_intervals", "delete_intervals", "variants", "genotype_matrix", "map_mutations",
+            "map_mutations_64", "stats", "divmat", "newick", "trees", "dump_load", "union", "extend", "decapitate",
+            "split_edges", "extend_haplotypes", "count_topologies", "gnn", "trim_rows"]
+
+
+@op("tc.set_index_one", [("which", "raw"), ("pos", "raw"), ("v", "raw")], needs="tc")
+def _(c, which, pos, v):
+    """user-supplied indexes: ONE element of ONE of the two arrays replaced by a boundary id,
+    the other array left valid"""
+    import numpy as np
+    import tskit
+    t = c.tc
+    if not t.has_index():
+        t.build_index()
+    ins = np.array(t.indexes.edge_insertion_order, dtype=np.int32)
+    rem = np.array(t.indexes.edge_removal_order, dtype=np.int32)
+    n = len(t.edges)
+    arr = ins if which == "ins" else rem
+    if n:
+        arr[{"first": 0, "last": n - 1, "mid": n // 2}[pos]] = res_id(v, n)
+    t.indexes = tskit.TableCollectionIndexes(edge_insertion_order=ins, edge_removal_order=rem)
+    return t.has_index()
+
+
 # ----------------------------------------------------------------------------------
 # bases
 # ----------------------------------------------------------------------------------
@@ -2375,6 +2578,15 @@ def model_term(k, st, r, obs, case):
     if v is None or env is None:
         return None
     opn, a = st["op"], st.get("args", {})
+    if opn == "tc.call" and a.get("m") in ("tree_sequence", "compute_mutation_parents", "compute_mutation_times") \
+            and env.get("index") and env.get("tc"):
+        # uses the arrays actually stored at this step, so it is valid anywhere in a sequence;
+        # one-directional: the call can fail for other reasons
+        ne = env["tc"]["edges"]
+        ix = env["index"]
+        if len(ix["ins"]) == ne and len(ix["rem"]) == ne:
+            return "verdict_implies (verdict_of (check_index_entry true true %s %s %s %s)) %s" % (
+                cz(ne), clist(ix["ins"]), clist(ix["rem"]), _alloc(ne), v)
     if opn.startswith(TABLE_FIRST_ONLY) and (k != 0 or case["base"]["kind"] != "valid"):
         return None                      # tables drift along a sequence; arbitrary tables are monitored only
     ts = env.get("ts")
@@ -3251,7 +3463,98 @@ class BadState(Monitor):
                 yield {"base": rng.choice(bases), "steps": steps}
 
 
-FAMILIES = [TreeIds, TsIds, Positions, Stats, Tables, MapMutations, RawTables, Sequences, Arrays, BadState]
+class Indexes(Monitor):
+    """User-supplied table indexes: each of the two arrays INDEPENDENTLY carries one boundary
+    id; then everything that checks or uses the index."""
+    name = "indexes"
+
+    def generate(self, rng, tier):
+        descs = valid_bases(rng, 5 if tier == "quick" else 20, max_sites=4, metadata=False)
+        bases = [base_valid(rng, d) for d in descs]
+        users = [[{"op": "tc.call", "args": {"m": "tree_sequence"}}, {"op": "probe.tree", "args": {}}],
+                 [{"op": "tc.call", "args": {"m": "compute_mutation_parents"}}],
+                 [{"op": "tc.call", "args": {"m": "compute_mutation_times"}}],
+                 [{"op": "tc.call", "args": {"m": "dump_load"}}, {"op": "tc.call", "args": {"m": "tree_sequence"}}],
+                 [{"op": "tc.call", "args": {"m": "asdict_fromdict"}}, {"op": "tc.call", "args": {"m": "tree_sequence"}}],
+                 [{"op": "tc.call", "args": {"m": "pickle"}}, {"op": "tc.call", "args": {"m": "compute_mutation_parents"}}],
+                 [{"op": "tc.ibd_all", "args": {"opts": {}}}, {"op": "tc.call", "args": {"m": "simplify"}}],
+                 [{"op": "tc.call", "args": {"m": "trim"}}, {"op": "tc.call", "args": {"m": "canonicalise"}}],
+                 [{"op": "tc.keep_intervals", "args": {"iv": [["0", "mid"]], "opts": {"simplify": False}}},
+                  {"op": "tc.call", "args": {"m": "tree_sequence"}}]]
+        reps = 1 if tier == "quick" else 4
+        for _ in range(reps):
+            for which in ("ins", "rem"):
+                for v in ID_SYMS + ["min"]:
+                    for pos in ("first", "last", "mid"):
+                        for ui, u in enumerate(users):
+                            if tier == "quick" and ui >= 3 and rng.random() < 0.6:
+                                continue
+                            steps = [{"op": "tc.set_index_one", "args": {"which": which, "pos": pos, "v": v}, "expect": "any"}]
+                            steps += json.loads(json.dumps(u))
+                            bad = v in ("-2", "-1", "n", "n+1", "max", "min")
+                            for st in steps[1:]:
+                                st["expect"] = "any"
+                            if bad and steps[1]["op"] == "tc.call" and steps[1]["args"]["m"] in (
+                                    "tree_sequence", "compute_mutation_parents", "compute_mutation_times"):
+                                steps[1]["expect"] = "raise"      # an index entry outside [0, num_edges)
+                            steps += [{"op": "probe.tc", "args": {}}]
+                            yield {"base": rng.choice(bases), "steps": steps}
+
+
+SIZES_QUICK = [63, 64, 65, 127, 128, 129]
+SIZES_THOROUGH = [31, 32, 33, 255, 256, 257, 511, 512, 513, 1023, 1024, 1025]
+
+
+class Sizes(Monitor):
+    """Valid inputs whose child counts / segment counts / row counts sit exactly at powers of
+    two and +-1: the grow-by-doubling buffers of the C library (simplifier segment queue,
+    ibd segment queue, table columns, ancestor mapper, sorter) under ASan."""
+    name = "sizes"
+    timeout = 300.0
+
+    def generate(self, rng, tier):
+        sizes = SIZES_QUICK + (SIZES_THOROUGH if tier != "quick" else [])
+        T = [{"op": "probe.ts", "args": {}}]
+        for n in sizes:
+            shapes = [{"kind": "shape", "shape": "star", "n": n},
+                      {"kind": "shape", "shape": "caterpillar", "n": n},
+                      {"kind": "shape", "shape": "two_level", "n": n, "g": 2},
+                      {"kind": "shape", "shape": "two_level", "n": 2 * n, "g": 2}]       # n children per parent
+            for m in (2, 4, 8):
+                if n % m == 0 or (n + 1) % m == 0 or (n - 1) % m == 0:
+                    k = max(n // m, 1)
+                    shapes.append({"kind": "shape", "shape": "intervals", "n": k, "m": m})           # ~n segments
+                    if k * m != n:
+                        shapes.append({"kind": "shape", "shape": "intervals", "n": k + 1, "m": m})
+            shapes.append({"kind": "shape", "shape": "intervals", "n": 2, "m": n // 2 if n % 2 == 0 else n})
+            for base in shapes:
+                big = base["n"] * base.get("m", 1) > 300
+                for which in ("all", "even", "odd", "all_but_one", "first_half", "rev"):
+                    for opts in ({}, {"keep_unary": True}, {"filter_nodes": False, "keep_input_roots": True}):
+                        if (tier == "quick" or big) and opts and which not in ("all", "even"):
+                            continue
+                        for on in ("ts", "tc") if (tier != "quick" and not big) else ("ts",):
+                            yield {"base": base, "steps": [{"op": "big.simplify", "args": {"which": which, "opts": opts, "on": on}}] + T}
+                if not big:
+                    for which in ("all", "even", "between", "all_but_one"):
+                        for opts in ({}, {"store_segments": True}, {"store_pairs": True, "min_span": 0.1}):
+                            if tier == "quick" and opts and which != "all":
+                                continue
+                            yield {"base": base, "steps": [{"op": "big.ibd", "args": {"which": which, "opts": opts}}] + T}
+                for which in ("all", "even", "all_but_one"):
+                    for anc in ("internal", "root"):
+                        yield {"base": base, "steps": [{"op": "big.link_ancestors", "args": {"which": which, "anc": anc}}] + T}
+                for which in ("all", "rev", "even", "samples", "dup"):
+                    yield {"base": base, "steps": [{"op": "big.subset", "args": {"which": which, "opts": {}}}] + T}
+                for what in BIG_MISC:
+                    if big and what in ("divmat", "union", "count_topologies", "extend_haplotypes"):
+                        continue
+                    if tier == "quick" and base["shape"] in ("two_level",) and what not in ("sort_shuffled", "dump_load", "trees", "variants"):
+                        continue
+                    yield {"base": base, "steps": [{"op": "big.misc", "args": {"what": what}}] + T}
+
+
+FAMILIES = [TreeIds, TsIds, Positions, Stats, Tables, MapMutations, RawTables, Sequences, Arrays, BadState, Indexes, Sizes]
 NOT_COVERED = [
     "PROVED is only the guard logic of the entry points modelled in coq/theories/C09/Guards.v; memory safety "
     "of the compiled C (heap layout, UB in unmodelled code, allocator failure paths) is MONITORED under "
